@@ -149,7 +149,7 @@ Qed.
 Definition keeps (s s' : st) : Prop :=
   sc_sks s' = sc_sks s /\ sc_flow_level s' = sc_flow_level s /\ sc_tokens s' = sc_tokens s
   /\ sc_tokens_parsed s' = sc_tokens_parsed s /\ sc_stream_start s' = sc_stream_start s
-  /\ sc_stream_end s' = sc_stream_end s /\ sc_ifms s' = sc_ifms s /\ sc_fms s' = sc_fms s
+  /\ sc_stream_end s' = sc_stream_end s /\ sc_ifms s' = sc_ifms s
   /\ ((sc_indent s' = sc_indent s /\ sc_indents s' = sc_indents s)
       \/ (sc_indent s', sc_indents s') = unroll_nb (sc_indents s) (sc_indent s)).
 
@@ -164,7 +164,7 @@ Qed.
 
 Lemma keeps_trans s1 s2 s3 : keeps s1 s2 -> keeps s2 s3 -> keeps s1 s3.
 Proof.
-  unfold keeps. intros (A1 & A2 & A3 & A4 & A5 & A6 & A7 & A8 & A9) (B1 & B2 & B3 & B4 & B5 & B6 & B7 & B8 & B9).
+  unfold keeps. intros (A1 & A2 & A3 & A4 & A5 & A6 & A7 & A9) (B1 & B2 & B3 & B4 & B5 & B6 & B7 & B9).
   repeat split; try congruence.
   destruct A9 as [[Ai Al]|Au], B9 as [[Bi Bl]|Bu].
   - left; split; congruence.
